@@ -13,11 +13,17 @@ def run(ctx):
         "of the walk depends on anything but overhang terms (any arithmetic fork on a module's length or record is the "
         "violation). K7: target_sequence is the circular interval [s1,s3) of the module's own record. K14: one step "
         "appends only the consumed module's fragment. With C01 the product differs only in that module's fragment."
+        " overhang-identity: the overhangs that decide the chain are compared and looked up case-normalised (sameness of overhangs is sameness of letters)."
         ' identity: parts compare and hash by identity (the match cache is keyed by the instance). screen-locality: the illegal-site screen digests the matched region only, so validity does not depend on the backbone a replacement is stored in.'
     )
     records = ctx.guard(collect_walk_effects, ctx)
     if records is not None:
         ctx.guard(read_set_rule, ctx, "C19.read-set", records)
+        # "the same upstream and downstream overhangs" is sameness of letters, not of spelling (C18): every overhang that
+        # decides how the chain goes on is compared / looked up case-normalised, or a replacement spelt in another letter
+        # case stalls a chain the original completed
+        from ..rules_misc import case_taint_rule
+        ctx.guard(case_taint_rule, ctx, "C19.overhang-identity", records)
     run_kernels(ctx, ["K7", "K14", "K15", "K0", "K10"], "C19")
     # a swap succeeds only if typing the replacement does not depend on what was typed before
     from ..rules_ast import persistent_state_rule
